@@ -218,17 +218,18 @@ func stringsText(ss []string) string {
 // ---- per-kind calls ---------------------------------------------------------
 
 type inst struct {
-	proj     *Project
-	js       *jschema.JSchema
-	rs       *regex.RSchema
-	en       *enum.Enum
-	donor    *inst           // registers the donor's type and rule objects instead of fresh ones (Project.ShareWith)
-	ruleObjs []*enum.Enum    // the rule objects registered with js, in declared order
-	typeObjs []schema.Schema // the type objects registered with js, in declared order
-	built    bool
-	dead     bool // an injected failure hit this object: no further oracle on it
-	retired  bool // the caller's buffer its text lived in was given to another object: its life is over
-	nEx      int  // number of Example() calls made on an rschema
+	proj      *Project
+	js        *jschema.JSchema
+	rs        *regex.RSchema
+	en        *enum.Enum
+	donor     *inst           // registers the donor's type and rule objects instead of fresh ones (Project.ShareWith)
+	ruleObjs  []*enum.Enum    // the rule objects registered with js, in declared order
+	typeObjs  []schema.Schema // the type objects registered with js, in declared order
+	built     bool
+	dead      bool // an injected failure hit this object: no further oracle on it
+	retired   bool // the caller's buffer its text lived in was given to another object: its life is over
+	bufLoaded bool // the text has been copied into the caller's buffer (content() was called)
+	nEx       int  // number of Example() calls made on an rschema
 }
 
 const maxRegexExamples = 4
@@ -281,6 +282,7 @@ func (in *inst) content() any {
 	}
 	b := callerBufs[p.Buf][:len(p.Text):len(p.Text)]
 	copy(b, p.Text)
+	in.bufLoaded = true
 	return b
 }
 
